@@ -158,14 +158,15 @@ impl Dialog {
                 response.msg.headers.insert_named(self.endpoint.allowed());
             }
 
-            if let 200..=299 = code {
-                if request.base_headers.to.tag.is_none() {
-                    // Add To-tag to success response to create dialog
-                    response.msg.headers.edit(Name::TO, |to: &mut FromTo| {
-                        to.tag.clone_from(&self.local_fromto.tag);
-                    })?;
-                }
+            if code > 100 && request.base_headers.to.tag.is_none() {
+                // Add the dialog's local tag to every response except 100 Trying,
+                // provisional and failure responses belong to the dialog as well
+                response.msg.headers.edit(Name::TO, |to: &mut FromTo| {
+                    to.tag.clone_from(&self.local_fromto.tag);
+                })?;
+            }
 
+            if let 200..=299 = code {
                 response.msg.headers.insert_named(self.endpoint.supported());
             }
         }
